@@ -13,7 +13,13 @@ open KaVerif Num
 def range (lo hi : Int) : List Int :=
   (List.range (hi + 1 - lo).toNat).map (fun (k : Nat) => lo + Int.ofNat k)
 
-/-- the loop of `ka_range` on exact rationals; `fuel` bounds the number of iterations -/
+/-- the loop of `ka_range` on exact rationals; `fuel` bounds the number of iterations.
+    The code's loop also checks, in every round, that `curr + step` is larger than `curr` and raises
+    FunctionArgError otherwise (fix efcc27a: `1e16 + 0.5 == 1e16` looped forever).  On exact rationals
+    that guard is dead code: `kaRange` enters the loop only with `0 < step`, and then `curr < curr + step`
+    always.  So this fragment has no guard; `PIPE_range_step` (Props/Pipeline2.lean, `kaRangeLoop_eq`)
+    proves that the unified evaluator's loop WITH the guard, on exact operands, is this loop, and
+    `PIPE_range_step_float` (Props/PipelineArr.lean, clause 5) that the guard can only fire with a float. -/
 def rangeLoop (hi step : Rat) : Nat → Rat → List Rat → Option (List Rat)
   | 0, _, _ => none                                  -- would still be looping: `diverges`
   | fuel + 1, curr, acc =>
